@@ -164,6 +164,15 @@ TXts ==
              ELSE IF e.data[3] < 16
              THEN    Chk(e.untouched = 1, "C03", "xts-short-length-touched-buffers", l, info)
                   \o MachineChecks(e, e.fam)
+             ELSE IF "big" \in DOMAIN e
+             THEN \* data units up to the legal maximum: the first three blocks (they depend on nothing behind them), the return
+                  \* code, and that the end of the output was written
+                  LET d48 == PatBytes(e.data[1], e.data[2], 48)
+                      exp == IF e.dir = "enc" THEN XtsEnc(k1, k2, tw, d48) ELSE XtsDec(k1, k2, tw, d48)
+                  IN    Chk(e.out = ToHex(exp), "C03", "xts-output", l, info)
+                     \o Chk(e.untouched = 0 /\ (e.tailwritten = 1 \/ e.inpl = 1), "C03", "xts-long-unit-not-processed", l, info \o << e.untouched, e.tailwritten >>)
+                     \o Chk(e.rc = 0, "C16", "xts-rc", l, info \o << e.rc >>)
+                     \o MachineChecks(e, e.fam)
              ELSE LET exp == IF e.dir = "enc" THEN XtsEnc(k1, k2, tw, Data(e)) ELSE XtsDec(k1, k2, tw, Data(e))
                   IN    Chk(e.out = ToHex(exp), "C03", "xts-output", l, info)
                      \o Chk(e.rc = 0, "C16", "xts-rc", l, info \o << e.rc >>)
